@@ -29,7 +29,7 @@ var (
 	errCreateNewDirectory = errors.New("failed to create new directory")
 	errDAGFileEmpty       = errors.New("dagFile is empty")
 
-	rTimestamp = regexp.MustCompile(`2\d{7}.\d{2}:\d{2}:\d{2}`)
+	rTimestamp = regexp.MustCompile(`2\d{7}\.\d{2}:\d{2}:\d{2}(\.\d{3})?`)
 )
 
 const (
@@ -366,7 +366,13 @@ func filterLatest(files []string, n int) []string {
 }
 
 func timestamp(file string) string {
-	return rTimestamp.FindString(file)
+	// The DAG name may itself look like a timestamp: use the last match of
+	// the file name, which is the one appended by newFile.
+	matches := rTimestamp.FindAllString(filepath.Base(file), -1)
+	if len(matches) == 0 {
+		return ""
+	}
+	return matches[len(matches)-1]
 }
 
 func readLineFrom(f *os.File, offset int64) ([]byte, error) {
